@@ -98,6 +98,60 @@ theorem pArrHead_lt {rest : Bytes} {n : Nat} {body : Bytes} (h : pArrHead rest =
     · simp at h
   · simp at h
 
+theorem splitSemi_len : (b : Bytes) → ∀ t r, splitSemi b = some (t, r) → t.length + r.length + 1 = b.length
+  | [], t, r, h => by simp [splitSemi] at h
+  | c :: rest, t, r, h => by
+    simp only [splitSemi] at h
+    split at h
+    · simp only [Option.some.injEq, Prod.mk.injEq] at h
+      rw [← h.1, ← h.2]; simp
+    · cases hs : splitSemi rest with
+      | none => simp [hs] at h
+      | some p =>
+        obtain ⟨a, b⟩ := p
+        simp only [hs, Option.some.injEq, Prod.mk.injEq] at h
+        have := splitSemi_len rest a b hs
+        rw [← h.1, ← h.2]; simp; omega
+
+theorem pFloat_lt {rest : Bytes} {v : PV} {r : Bytes} (h : pFloat rest = some (v, r)) :
+    r.length + 1 ≤ rest.length := by
+  unfold pFloat at h
+  split at h
+  · rename_i tl
+    cases hs : splitSemi tl with
+    | none => simp [hs] at h
+    | some p =>
+      obtain ⟨t, r'⟩ := p
+      simp only [hs] at h
+      split at h
+      · simp only [Option.some.injEq, Prod.mk.injEq] at h
+        have := splitSemi_len tl t r' hs
+        rw [← h.2]; simp; omega
+      · simp at h
+  · simp at h
+
+theorem keyFilter_some {o : Option (PV × Bytes)} {p : PV × Bytes} (h : keyFilter o = some p) : o = some p := by
+  match o, h with
+  | some (k, s), h =>
+    simp only [keyFilter] at h
+    split at h
+    · exact h
+    · simp at h
+
+theorem keyFilter_ok {o : Option (PV × Bytes)} {k : PV} {s : Bytes} (h : keyFilter o = some (k, s)) :
+    keyOk k = true := by
+  match o, h with
+  | some (k', s'), h =>
+    simp only [keyFilter] at h
+    split at h
+    · rename_i hk
+      simp only [Option.some.injEq, Prod.mk.injEq] at h
+      rw [← h.1]; exact hk
+    · simp at h
+
+theorem keyFilter_of_ok {k : PV} {s : Bytes} (h : keyOk k = true) : keyFilter (some (k, s)) = some (k, s) := by
+  simp [keyFilter, h]
+
 theorem closeArr_lt {es : List (PV × PV)} {s : Bytes} {v : PV} {r : Bytes}
     (h : closeArr es s = some (v, r)) : r.length + 1 ≤ s.length := by
   unfold closeArr at h
@@ -137,34 +191,39 @@ theorem fuel_mono (f : Nat) :
               · rename_i hc4; rw [if_pos hc4] at h; exact ⟨h, by have := pStr_lt h; simp; omega⟩
               · rename_i hc4; rw [if_neg hc4] at h
                 split
-                · rename_i hc5; rw [if_pos hc5] at h
-                  cases hh : pArrHead rest with
-                  | none => simp [hh] at h
-                  | some p =>
-                    obtain ⟨n, body⟩ := p
-                    simp only [hh] at h ⊢
-                    cases he : pEntries f n body with
-                    | none => simp [he] at h
-                    | some q =>
-                      obtain ⟨es, rest'⟩ := q
-                      simp only [he] at h
-                      obtain ⟨h1, h2⟩ := ihE n body es rest' he
-                      rw [h1]
-                      refine ⟨h, ?_⟩
-                      have := closeArr_lt h
-                      have := pArrHead_lt hh
-                      simp; omega
-                · rename_i hc5; rw [if_neg hc5] at h; simp at h
+                · rename_i hc6; rw [if_pos hc6] at h; exact ⟨h, by have := pFloat_lt h; simp; omega⟩
+                · rename_i hc6; rw [if_neg hc6] at h
+                  split
+                  · rename_i hc5; rw [if_pos hc5] at h
+                    cases hh : pArrHead rest with
+                    | none => simp [hh] at h
+                    | some p =>
+                      obtain ⟨n, body⟩ := p
+                      simp only [hh] at h ⊢
+                      cases he : pEntries f n body with
+                      | none => simp [he] at h
+                      | some q =>
+                        obtain ⟨es, rest'⟩ := q
+                        simp only [he] at h
+                        obtain ⟨h1, h2⟩ := ihE n body es rest' he
+                        rw [h1]
+                        refine ⟨h, ?_⟩
+                        have := closeArr_lt h
+                        have := pArrHead_lt hh
+                        simp; omega
+                  · rename_i hc5; rw [if_neg hc5] at h; simp at h
     · intro n s es r h
       cases n with
       | zero => simp only [pEntries, Option.some.injEq, Prod.mk.injEq] at h ⊢; exact ⟨h, by rw [← h.2]; exact Nat.le_refl _⟩
       | succ n =>
         rw [pEntries] at h ⊢
-        cases h1 : pValue f s with
-        | none => simp [h1] at h
+        cases hk1 : keyFilter (pValue f s) with
+        | none => simp [hk1] at h
         | some p1 =>
           obtain ⟨k, s1⟩ := p1
-          simp only [h1] at h
+          have h1 := keyFilter_some hk1
+          have hok := keyFilter_ok hk1
+          simp only [hk1] at h
           cases h2 : pValue f s1 with
           | none => simp [h2] at h
           | some p2 =>
@@ -178,7 +237,7 @@ theorem fuel_mono (f : Nat) :
               obtain ⟨a1, a2⟩ := ihV s k s1 h1
               obtain ⟨b1, b2⟩ := ihV s1 v s2 h2
               obtain ⟨c1, c2⟩ := ihE n s2 es' s3 h3
-              rw [a1]; simp only; rw [b1]; simp only; rw [c1]
+              rw [a1, keyFilter_of_ok hok]; simp only; rw [b1]; simp only; rw [c1]
               simp only [Option.some.injEq, Prod.mk.injEq]
               exact ⟨h, by rw [← h.2]; omega⟩
 
